@@ -42,6 +42,12 @@ def defined_fields(repo, modules):
                             s = pyflow.const_str(tt.slice)
                             if s:
                                 add(s, mod, node)
+            elif isinstance(node, ast.Dict):
+                # a dict display with constant keys is the literal spelling of dict(k=v, ...)
+                for k in node.keys:
+                    s = pyflow.const_str(k) if k is not None else None
+                    if s and s.isidentifier():
+                        add(s, mod, node)
             elif isinstance(node, ast.Call):
                 fn = pyflow.call_name(node) or ""
                 last = fn.split(".")[-1]
